@@ -152,6 +152,11 @@ def obligations(tier, seed):
         body = '\n' + '\n'.join('  CHECK(%s(a, b) == (a %s b), "%s-is-raw-comparison");' % (w.name, op, n) for w, (n, op) in zip(ws, ops)) + '\n'
         obs.append(Ob(id='C13.cmp.%s' % rep, prop='C13', group=grp, prelude=pre, wrappers=ws, inputs=[(ct, 'a'), (ct, 'b')], body=body, fp=True,
                       contract='forall bit patterns incl. NaN, +-0, inf: comparisons equal the raw comparisons', functions_under_contract=('au::operator==..>= (floating)',)))
+        wsp = [Wrapper('w_pt%s_%s' % (n, rep), 'bool', [(ct, 'a'), (ct, 'b')], 'return au::make_quantity_point<%s>(a) %s au::make_quantity_point<%s>(b);' % (U, op, U)) for n, op in ops]
+        bodyp = '\n' + '\n'.join('  CHECK(%s(a, b) == (a %s b), "point-%s-is-raw-comparison");' % (w.name, op, n) for w, (n, op) in zip(wsp, ops)) + '\n'
+        obs.append(Ob(id='C13.point-cmp.%s' % rep, prop='C13', group=grp + '.pt', prelude=pre + '\n//--\n#include "au/quantity_point.hh"', wrappers=wsp, inputs=[(ct, 'a'), (ct, 'b')],
+                      body=bodyp, fp=True, contract='forall bit patterns incl. NaN, +-0, inf: same-unit QuantityPoint comparisons equal the raw comparisons',
+                      functions_under_contract=('au::QuantityPoint operator==..>= (floating)',)))
         win = Wrapper('w_in_' + rep, ct, [(ct, 'a')], 'return %s.in(%s{});' % (mk('a'), U))
         wdf = Wrapper('w_default_' + rep, ct, [], 'return au::Quantity<%s, %s>{}.in(%s{});' % (U, ct, U))
         wpt = Wrapper('w_ptin_' + rep, ct, [(ct, 'a')], 'return au::make_quantity_point<%s>(a).in(%s{});' % (U, U))
